@@ -20,6 +20,13 @@ from . import refcmd, refpdu, pdugen as g
 class FakeDUL(object):
     """Stands in for dulprovider.DULServiceProvider."""
 
+    def __getattr__(self, name):
+        # (a member of the real provider that the ACSE / service code of this tree uses and the scripted one lacks)
+        if name.startswith('__'):
+            raise AttributeError(name)
+        from .common import HarnessError
+        raise HarnessError('scripted provider has no %r: it does not fit this tree' % (name,))
+
     def __init__(self, store_in_file, get_file_cb, dul_socket=None, max_pdu_length=65536):
         self.store_in_file = store_in_file
         self.get_file_cb = get_file_cb
@@ -247,9 +254,11 @@ def run_acceptor(ae, factory_plan, max_pdu_length=None, lazy=False):
                                                        max_pdu_length if max_pdu_length is not None
                                                        else ae.max_pdu_length)
         except BaseException as e:      # noqa - surfaced to the caller
-            from .common import HarnessError
+            from .common import HarnessError, harness_fault
             if isinstance(e, HarnessError):
                 raise
+            if harness_fault(e):
+                raise HarnessError('the scripted provider does not fit this tree: %r' % (e,))
             exc = e
     return acc, fac, exc
 
